@@ -181,3 +181,30 @@ package internal
 //@ func GetRegistry
 //@   property C13
 //@   modifies nothing
+
+// the connection-state watcher: "disconnected" is set by a failure state and cleared ONLY by READY (which then triggers the
+// reload) - intermediate states (CONNECTING, IDLE) leave it alone, so the READY that follows an outage still reloads
+//@ func (sw *stateWatcher) updateState
+//@   property C13
+//@   flag callbacks_noheap
+//@   requires sw != nil
+//@   ghost at after GetState#0: gs = ret
+//@   ghost at after GetState#0: d0 = sw.disconnected
+//@   ghost at entry: nt = false
+//@   ghost at after notifyListeners#0: nt = true
+//@   ensures_local implies(gs != connectivity.Ready && gs != connectivity.TransientFailure && gs != connectivity.Shutdown, sw.disconnected == d0 && !nt)
+//@   ensures_local implies(gs == connectivity.Ready, !sw.disconnected && nt == d0)
+//@   ensures_local implies(gs == connectivity.TransientFailure || gs == connectivity.Shutdown, sw.disconnected && !nt)
+// getCurrent: what is replayed to a late listener are entries of the watcher's table, nothing else (no placeholder elements)
+//@ func (c *cluster) getCurrent
+//@   property C13
+//@   flag nolock
+//@   loop 0: modifies nothing
+//@   loop 0: invariant forall(i.(int), implies(0 <= i && i < len(kvs), inDom(watcher.values, kvs[i].Key) && watcher.values[kvs[i].Key] == kvs[i].Val))
+// (the listeners are the clusters' reload triggers: they do not touch the watcher's own flag - stated assumption on the callbacks)
+//@ func (sw *stateWatcher) notifyListeners
+//@   property C13
+//@   flag callbacks_noheap nolock
+//@   loop 0: modifies calls
+//@   loop 0: invariant true
+//@   modifies calls
